@@ -157,6 +157,8 @@ class var_induct(Tactic):
         inst = matcher.first_order_match(th_args[0], var)
         inst[f.name] = P
         As, _ = th.prop.subst_norm(inst).strip_implies()
+        # The goal itself may be an implication: keep only the cases of the rule.
+        As = As[:len(th.assums)]
         pts = [ProofTerm.sorry(Thm(A, goal.hyps)) for A in As]
         return ProofTerm("apply_induct", (th_name, var, goal.prop), pts)
 
